@@ -157,7 +157,13 @@ func Worker(o Opts, from, stride int, dumpHashes bool) {
 				rep.Violation = &FoundViolation{From: idx, Stride: 1, Idx: idx, Scenario: sc, V: *gv}
 				break
 			}
+			t0 := time.Now()
 			out := SafeExecute(p, sc)
+			if d := time.Since(t0); d > 30*time.Second {
+				// diagnostics only (stderr, never part of a verdict): one run that
+				// eats a large part of the batch budget points at a workload bound
+				fmt.Fprintf(os.Stderr, "qsim: slow run: property %s run %d took %.0fs (%d steps in the scenario)\n", o.Prop, idx, d.Seconds(), len(sc.Steps))
+			}
 			rep.Runs++
 			rep.SimSteps += out.SimSteps
 			rep.LogXor ^= SplitMix64(out.LogHash ^ uint64(idx))
